@@ -1,5 +1,5 @@
 (* C10 -- Blurring, edge and border pixel sets match their definitions for every mask.
-   Statements only; every proof is [exact <lemma of Proofs/C10.v, C10b.v, C10c.v or C10d.v>].
+   Statements only; every proof is [exact <lemma of Proofs/C10.v, C10b.v, C10c.v, C10d.v or C10e.v>].
    The statements are about the executable model of Model/C10.v Part 2 (blurring_mask_2d_from, blurring_from,
    check_if_edge_pixel, edge_1d_indexes_from = edge_slim, border_slim_indexes_from = border_slim, edge_native,
    border_native, mask_edge, mask_border, mask_edge_buffed, grid_edge, grid_border, blurring_grid_from), which the
@@ -7,7 +7,7 @@
    A mask is a list of rows, [true] = masked; [get m y x] reads m[y, x]; slim index k denotes
    [pixel_of_slim m k], the k-th unmasked pixel in row-major order. *)
 From Coq Require Import ZArith List Bool.
-From PAV Require Import Base.Res Base.Check Model.C10 Proofs.C10 Proofs.C10b Proofs.C10c Proofs.C10d.
+From PAV Require Import Base.Res Base.Check Model.C10 Proofs.C10 Proofs.C10b Proofs.C10c Proofs.C10d Proofs.C10e.
 Import ListNotations.
 Local Open Scope Z_scope.
 
@@ -272,6 +272,29 @@ Example C10_hist_example :
   /\ check (KHist ex_hist_stale) = 2%nat /\ check (KHist ex_hist_alias) = 2%nat.
 Proof. vm_compute. repeat split. Qed.
 
+(* ------------------------------------------------------------------ hardening pass: devices of the correspondence harness *)
+(* Geometry scaling.  The harness also builds masks whose pixel scales and origin are g * 2^e (tiny / huge magnitudes) and
+   divides the observed coordinates by 2^e; every coordinate view of the model is homogeneous of degree one in the geometry
+   (scale_geom c g = (c*sy, c*sx, c*oy, c*ox), scale_pt c (y, x) = (c*y, c*x)), and scaling loses nothing (c <> 0). *)
+Theorem C10_grid_views_scale : forall m c g,
+  grid_edge m (scale_geom c g) = map (scale_pt c) (grid_edge m g)
+  /\ grid_border m (scale_geom c g) = map (scale_pt c) (grid_border m g)
+  /\ (forall kh kw, blurring_grid_from m kh kw (scale_geom c g)
+                    = match blurring_grid_from m kh kw g with Ok l => Ok (map (scale_pt c) l) | Raise e => Raise e end)
+  /\ (forall l, grid_of m (scale_geom c g) l = map (scale_pt c) (grid_of m g l)).
+Proof. exact grid_views_scale. Qed.
+Theorem C10_scale_injective : forall c p q, c <> 0 -> scale_pt c p = scale_pt c q -> p = q.
+Proof. exact scale_pt_inj. Qed.
+Example C10_scale_example :
+  grid_edge ex_m1 (scale_geom 1024 (2, 1, 1, -2)) = map (scale_pt 1024) (grid_edge ex_m1 (2, 1, 1, -2))
+  /\ grid_edge ex_m1 (2, 1, 1, -2) <> [].
+Proof. vm_compute. split; [reflexivity|discriminate]. Qed.
+(* The same operation observed twice on an unchanged object is one judgement (every case of the input-kind streams is
+   evaluated twice on the same objects). *)
+Theorem C10_hist_repeated_read : forall P D st o k t,
+  hist_ok P D st (HRead o k :: HRead o k :: t) = hist_ok P D st (HRead o k :: t).
+Proof. exact hist_repeat_read. Qed.
+
 Print Assumptions C10_blurring_util_is_spec. Print Assumptions C10_blurring_from_is_spec.
 Print Assumptions C10_blurring_exact. Print Assumptions C10_blurring_error_iff_footprint_leaves.
 Print Assumptions C10_blurring_ok_iff_footprints_inside. Print Assumptions C10_blurring_result_or_mask_exception.
@@ -293,3 +316,4 @@ Print Assumptions C10_hist_ok_stepwise. Print Assumptions C10_hist_reads_change_
 Print Assumptions C10_hist_edit_contents. Print Assumptions C10_edit_entries. Print Assumptions C10_edit_keeps_shape.
 Print Assumptions C10_hist_copy_then_edit_copy. Print Assumptions C10_hist_copy_then_edit_original.
 Print Assumptions C10_derived_masks_are_spec. Print Assumptions C10_spec_accepts_model_op.
+Print Assumptions C10_grid_views_scale. Print Assumptions C10_scale_injective. Print Assumptions C10_hist_repeated_read.
